@@ -746,22 +746,56 @@ def _starts_with_hash(t):
     return False
 
 
-def _fstring_parts(fi, expr, at):
-    """the interpolated parts of the f-string an expression denotes
-    (directly, or through the single definition of a local)"""
+def _string_parts(fi, expr, at, depth=0):
+    """flatten a string-building expression -- f-strings, `+`, str(), and
+    locals with a single definition -- into a list of ('lit', text) and
+    ('val', expression, node id where it is evaluated); None if the
+    expression is not of that shape"""
     rd = rd_of(fi)
     e = expr
-    for _ in range(3):
-        if isinstance(e, ast.JoinedStr):
-            return [p for p in e.values if isinstance(p, ast.FormattedValue)]
-        if isinstance(e, ast.Name):
-            ds = [d for d in rd.reaching(e.id, at)]
-            if len(ds) == 1 and getattr(ds[0], 'value', None) is not None:
-                at = ds[0].node
-                e = ds[0].value
-                continue
-        break
+    if depth > 6:
+        return None
+    if isinstance(e, ast.Constant) and isinstance(e.value, str):
+        return [('lit', e.value)]
+    if isinstance(e, ast.JoinedStr):
+        out = []
+        for p in e.values:
+            if isinstance(p, ast.Constant):
+                out.append(('lit', str(p.value)))
+            else:
+                sub = _string_parts(fi, p.value, at, depth + 1)
+                # an interpolated local that is itself a built string is
+                # flattened; anything else is a value
+                if sub is not None and isinstance(p.value, ast.Name) \
+                        and any(k == 'lit' for (k, *_r) in sub):
+                    out += sub
+                else:
+                    out.append(('val', p.value, at))
+        return out
+    if isinstance(e, ast.BinOp) and isinstance(e.op, ast.Add):
+        l = _string_parts(fi, e.left, at, depth + 1)
+        r = _string_parts(fi, e.right, at, depth + 1)
+        if l is None and r is None:
+            return None
+        return (l if l is not None else [('val', e.left, at)]) + (
+            r if r is not None else [('val', e.right, at)])
+    if isinstance(e, ast.Call) and isinstance(e.func, ast.Name) \
+            and e.func.id == 'str' and len(e.args) == 1:
+        return [('val', e.args[0], at)]
+    if isinstance(e, ast.Name):
+        ds = [d for d in rd.reaching(e.id, at)]
+        if len(ds) == 1 and getattr(ds[0], 'value', None) is not None \
+                and ds[0].kind == 'assign' and not ds[0].path:
+            return _string_parts(fi, ds[0].value, ds[0].node, depth + 1)
     return None
+
+
+def _fstring_parts(fi, expr, at):
+    """the interpolated values of a built string, as (expression, node)"""
+    parts = _string_parts(fi, expr, at)
+    if parts is None or not any(k == 'lit' for (k, *_r) in parts):
+        return None
+    return [(p[1], p[2]) for p in parts if p[0] == 'val']
 
 
 def check_column_names(ctx, csv_fn, df_fn):
@@ -787,7 +821,7 @@ def check_column_names(ctx, csv_fn, df_fn):
         if not parts:
             continue
         n_cols += 1
-        t = ex.expand(parts[0].value, node.id)
+        t = ex.expand(parts[0][0], parts[0][1])
         ok = T.call_name(t) == 'level_to_name'
         ctx.ob(rule, f'blob_to_df:{_lit(tg.slice, df_fn, node.id)}',
                df_fn.loc(node.ast), ok,
@@ -827,14 +861,10 @@ def check_column_names(ctx, csv_fn, df_fn):
                                     'confidence_label')):
             parts = _fstring_parts(csv_fn, expr, node.id)
             ok = False
-            detail = 'is not an f-string `<level name>_<key>`'
+            detail = 'is not a string built as `<level name>_<key>`'
             if parts and len(parts) == 2:
-                # expand at the definition of the f-string
-                at = node.id
-                if isinstance(expr, ast.Name):
-                    at = [d for d in rd.reaching(expr.id, node.id)][0].node
-                t0 = ex.expand(parts[0].value, at)
-                t1 = ex.expand(parts[1].value, at)
+                t0 = ex.expand(parts[0][0], parts[0][1])
+                t1 = ex.expand(parts[1][0], parts[1][1])
                 ok = T.call_name(t0) == 'level_to_name' \
                     and t1 == ('param', suffix)
                 detail = (f'is built from {fmt_term(t0)[:50]} and '
@@ -854,16 +884,10 @@ def check_column_names(ctx, csv_fn, df_fn):
 
 
 def _lit(expr, fi, at):
-    rd = rd_of(fi)
-    e = expr
-    if isinstance(e, ast.Name):
-        ds = rd.reaching(e.id, at)
-        if len(ds) == 1 and getattr(ds[0], 'value', None) is not None:
-            e = ds[0].value
-    if isinstance(e, ast.JoinedStr):
-        return ''.join(str(p.value) if isinstance(p, ast.Constant)
-                       else '{}' for p in e.values)
-    return type(e).__name__
+    parts = _string_parts(fi, expr, at)
+    if parts is None:
+        return type(expr).__name__
+    return ''.join(p[1] if p[0] == 'lit' else '{}' for p in parts)
 
 
 def check_every_cell_has_row(ctx, df_fn):
